@@ -319,6 +319,69 @@ Definition hash_key (q : quirks) (h : text -> N) (u : uri) : option (proto * N *
                else Some (u_proto u, fold_right (fun t acc => N.lxor (h t) acc) 0 (nodup text_dec l), u_loc u)
   end.
 
+(* ---------- field-wise equality / hashing: which positions of the state tuple __eq__ compares and __hash__
+   covers is regenerated from the source (GenUri.eq_fields / hash_fields) ---------- *)
+Inductive field := FProto | FObj | FSock | FHost | FPort.
+Definition all_fields : list field := [FProto; FObj; FSock; FHost; FPort].
+Definition field_of_code (c : N) : option field :=
+  if c =? 0 then Some FProto else if c =? 1 then Some FObj else if c =? 2 then Some FSock
+  else if c =? 3 then Some FHost else if c =? 4 then Some FPort else None.
+Fixpoint fields_of_codes (l : list N) : list field :=
+  match l with
+  | [] => []
+  | c :: l' => match field_of_code c with Some f => f :: fields_of_codes l' | None => fields_of_codes l' end
+  end.
+Definition field_beq (a b : field) : bool :=
+  match a, b with
+  | FProto, FProto | FObj, FObj | FSock, FSock | FHost, FHost | FPort, FPort => true
+  | _, _ => false
+  end.
+Definition mem_field (f : field) (fs : list field) : bool := existsb (field_beq f) fs.
+Definition covers (fs : list field) : bool := forallb (fun f => mem_field f fs) all_fields.
+Definition fields_incl (a b : list field) : bool := forallb (fun f => mem_field f b) a.
+
+Definition sock_of (L : uloc) : option text := match L with LSock n => Some n | _ => None end.
+Definition host_of (L : uloc) : option text := match L with LHost h _ => Some h | _ => None end.
+Definition port_of (L : uloc) : option Z := match L with LHost _ p => Some p | _ => None end.
+Definition opt_text_eqb (a b : option text) : bool :=
+  match a, b with None, None => true | Some x, Some y => text_eqb x y | _, _ => false end.
+Definition opt_Z_eqb (a b : option Z) : bool :=
+  match a, b with None, None => true | Some x, Some y => Z.eqb x y | _, _ => false end.
+
+Definition field_eqb (f : field) (u v : uri) : bool :=
+  match f with
+  | FProto => proto_eqb (u_proto u) (u_proto v)
+  | FObj => obj_eqb (u_obj u) (u_obj v)
+  | FSock => opt_text_eqb (sock_of (u_loc u)) (sock_of (u_loc v))
+  | FHost => opt_text_eqb (host_of (u_loc u)) (host_of (u_loc v))
+  | FPort => opt_Z_eqb (port_of (u_loc u)) (port_of (u_loc v))
+  end.
+(* __eq__ when it compares exactly the fields [fs] *)
+Definition uri_eqb_on (fs : list field) (u v : uri) : bool := forallb (fun f => field_eqb f u v) fs.
+
+Inductive fkey := KProto (p : proto) | KHash (n : N) | KOptText (o : option text) | KOptZ (o : option Z).
+Definition field_key (q : quirks) (h : text -> N) (f : field) (u : uri) : option fkey :=
+  match f with
+  | FProto => Some (KProto (u_proto u))
+  | FObj => match u_obj u with
+            | OName n => Some (KHash (h n))
+            | OTags l => if q_meta_unhashable q then None
+                         else Some (KHash (fold_right (fun t acc => N.lxor (h t) acc) 0 (nodup text_dec l)))
+            end
+  | FSock => Some (KOptText (sock_of (u_loc u)))
+  | FHost => Some (KOptText (host_of (u_loc u)))
+  | FPort => Some (KOptZ (port_of (u_loc u)))
+  end.
+(* __hash__ when it hashes the tuple of the fields [fs]; None = TypeError *)
+Fixpoint hash_key_on (q : quirks) (h : text -> N) (fs : list field) (u : uri) : option (list fkey) :=
+  match fs with
+  | [] => Some []
+  | f :: fs' => match field_key q h f u, hash_key_on q h fs' u with
+                | Some k, Some ks => Some (k :: ks)
+                | _, _ => None
+                end
+  end.
+
 (* ---------- what the table-dependent proofs need of the tables (a computed check) ---------- *)
 Definition ascii_digits : list N := [48; 49; 50; 51; 52; 53; 54; 55; 56; 57].
 Definition tables_ok (T : tables) : bool :=
